@@ -65,15 +65,19 @@ void b64encode(const void * data, size_t len, Literal& b64)
 
 void b64decode(const void * b64, size_t len, TabChar& data)
 {
+  const unsigned char *p = (const unsigned char*) b64;
+  /* the padding carries no data */
+  while (len > 0 && p[len - 1] == '=')
+    --len;
   if (len == 0)
     return;
 
-  const unsigned char *p = (const unsigned char*) b64;
-  size_t j = 0,
-      pad1 = len % 4 || p[len - 1] == '=',
-      pad2 = pad1 && (len % 4 > 2 || p[len - 2] != '=');
-  const size_t last = (len - pad1) / 4 << 2;
-  size_t datalen = last / 4 * 3 + pad1 + pad2;
+  /* the input is made of full quantums of 4 characters followed by a tail
+   * of 0 to 3 characters; a tail of 1 character doesn't make a byte */
+  size_t j = 0;
+  const size_t last = len / 4 << 2;
+  const size_t tail = len - last;
+  size_t datalen = last / 4 * 3 + (tail > 1 ? tail - 1 : 0);
   data.assign(datalen, '\0');
 
   for (size_t i = 0; i < last; i += 4)
@@ -83,11 +87,11 @@ void b64decode(const void * b64, size_t len, TabChar& data)
     data[j++] = n >> 8 & 0xFF;
     data[j++] = n & 0xFF;
   }
-  if (pad1)
+  if (tail > 1)
   {
     int n = B64index[p[last]] << 18 | B64index[p[last + 1]] << 12;
     data[j++] = n >> 16 & 0xFF;
-    if (pad2)
+    if (tail > 2)
     {
       n |= B64index[p[last + 2]] << 6;
       data[j++] = n >> 8 & 0xFF;
